@@ -8,6 +8,7 @@
 import Model.CoreClose
 import Model.Handshaker
 import Model.AcceptQ
+import Model.Inproc
 import Model.Proto.ReqClose
 import Model.Proto.RepClose
 import Model.Proto.CommonLemmas
@@ -576,5 +577,80 @@ theorem listener_hands_out_live_connections_once (s : AcceptQ.State) (hr : Accep
 example :
     let s := AcceptQ.run AcceptQ.init [.begin 1, .finish 1, .accept 7, .begin 2, .finish 2, .begin 3, .close, .finish 3, .begin 4]
     s.closed = true ∧ s.started = [1, 2, 3, 4] ∧ s.handed = [1] ∧ s.shut = [2, 3, 4] ∧ s.upgrading = [] := by decide
+
+/-! ### The inproc transport's rendezvous (`Model/Inproc.lean`, machine `m.inproc`): all histories of Listen, Accept,
+Dial, listener Close and dialer Close on any number of listeners, dialers and addresses. -/
+
+/-- a closed inproc listener is bound at no address and none of its Accepts is still waiting: Close released the
+    address and woke everyone -/
+theorem inproc_closed_listener_keeps_nothing (s : Inproc.State) (hr : Inproc.Reach s) (lid : Nat) (hc : lid ∈ s.closedL) :
+    (∀ b ∈ s.bound, b.lid ≠ lid) ∧ (∀ a ∈ s.accepters, a.1 ≠ lid) := by
+  have inv := Inproc.reach_inv hr
+  exact ⟨fun b hb he => (inv.boundLive b hb).2 (he ▸ hc), fun a ha he => (inv.accLive a ha).2 (he ▸ hc)⟩
+
+/-- no Dial waits for nothing: a Dial that is parked belongs to a dialer that is still open, and at its address a
+    listener of the matching protocol is bound that is not closed and has no Accept on offer — the only thing the Dial
+    is waiting for is that listener's next Accept (or either side's Close, which wakes it) -/
+theorem inproc_parked_dial_has_a_live_listener (s : Inproc.State) (hr : Inproc.Reach s) (p : Inproc.Park) (hp : p ∈ s.parked) :
+    p.did ∉ s.closedD ∧ ∃ b ∈ s.bound, b.addr = p.addr ∧ p.self = b.peer ∧ p.peer = b.self ∧ b.lid ∉ s.closedL ∧
+      ∀ a ∈ s.accepters, a.1 ≠ b.lid := by
+  have inv := Inproc.reach_inv hr
+  obtain ⟨h1, b, hb1, hb2, hb3, hb4, hb5⟩ := inv.parkedOK p hp
+  exact ⟨h1, b, hb1, hb2, hb3, hb4, (inv.boundLive b hb1).2, hb5⟩
+
+/-- an address has at most one listener -/
+theorem inproc_address_has_one_listener (s : Inproc.State) (hr : Inproc.Reach s) : (s.bound.map (·.addr)).Nodup :=
+  (Inproc.reach_inv hr).boundNodup
+
+/-- every call is in one place: the Accepts on offer, the parked Dials and the two ends of the connections made are
+    pairwise distinct calls — an Accept is paired with exactly one Dial, a connection is made once -/
+theorem inproc_calls_are_in_one_place (s : Inproc.State) (hr : Inproc.Reach s) : (Inproc.allCalls s).Nodup := by
+  have inv := Inproc.reach_inv hr
+  unfold Inproc.allCalls
+  rw [List.nodup_append]
+  refine ⟨?_, inv.connNodup, ?_⟩
+  · rw [List.nodup_append]
+    exact ⟨inv.accNodup, inv.parkNodup, fun a ha b hb he => inv.accPark a ha (he ▸ hb)⟩
+  · intro a ha b hb he
+    subst he
+    rcases List.mem_append.1 ha with h | h
+    · exact inv.accConn a h hb
+    · exact inv.parkConn a h hb
+
+/-- Close of the listener bound at an address frees the address: in the state after it nothing is bound there, so the
+    next Listen there succeeds -/
+theorem inproc_close_releases_the_address (s : Inproc.State) (hr : Inproc.Reach s) (b : Inproc.Bind) (hb : b ∈ s.bound) :
+    ∀ b' ∈ (Inproc.closeLState s b.lid).bound, b'.addr ≠ b.addr := by
+  have inv := Inproc.reach_inv hr
+  intro b' hb' he
+  simp only [Inproc.closeLState, List.mem_filter] at hb'
+  obtain ⟨h1, h2⟩ := hb'
+  have hne : b'.lid ≠ b.lid := by simpa using h2
+  have : b' = b := by
+    have hnd := inv.boundNodup
+    exact Inproc.nodup_map_inj _ _ hnd b' h1 b hb he
+  exact hne (this ▸ rfl)
+
+/-- closing a dialer wakes every Dial of that dialer that is parked (D25), and nobody else's -/
+theorem inproc_dialer_close_wakes_its_dials (s : Inproc.State) (did : Nat) :
+    (∀ p ∈ (Inproc.closeDState s did).parked, p.did ≠ did) ∧
+    (∀ p ∈ s.parked, p.did ≠ did → p ∈ (Inproc.closeDState s did).parked) := by
+  constructor
+  · intro p hp
+    simp only [Inproc.closeDState, List.mem_filter] at hp
+    simpa using hp.2
+  · intro p hp hne
+    simp only [Inproc.closeDState, List.mem_filter]
+    exact ⟨hp, by simpa using hne⟩
+
+/-- non-vacuity: two listeners compete for one address, a dial parks, is paired by the next Accept, the loser of the
+    address closes without disturbing the binding, the owner's Close refuses the second parked dial and fails the
+    waiting Accept of nobody (none left) -/
+example :
+    let run := fun (s : Inproc.State) (o : Inproc.Op) => ((Inproc.step s o).headD (s, [])).1
+    let s := [Inproc.Op.listen 1 5 16 17, .listen 2 5 16 17, .dial 1 100 5 17 16, .accept 1 101, .closeL 2,
+              .dial 1 102 5 17 16, .dial 2 103 6 17 16].foldl run Inproc.init
+    s.bound.map (·.lid) = [1] ∧ s.conns = [(101, 100)] ∧ s.parked.map (·.call) = [102] ∧ s.closedL = [2] ∧
+    ((Inproc.step s (.closeL 1)).headD (s, [])).2 = ["res:ok", "ret:102:refused"] := by decide
 
 end Props.C10
